@@ -42,7 +42,7 @@ func verifMetaDigest(m *ReusableWorkflowMetadata) string {
 }
 
 func HarnessC14Routes() {
-	req := []string{"", "        required: true\n", "        required: false\n"}
+	req := []string{"", "        required: true\n", "        required: false\n", "        required: True\n", "        required: FALSE\n"}
 	def := []string{"", "        default: ''\n", "        default: x\n", "        default: 1\n", "        default: true\n", "        default: null\n", "        default: ~\n"}
 	typ := []string{"", "        type: string\n", "        type: number\n", "        type: boolean\n", "        type: choice\n"}
 	name := []string{"in1", "In1", "IN-1"}[verifChoose("name", 3)]
